@@ -383,80 +383,189 @@ def checkCoords (x y : F64) : Except Err Unit := do
 
 def fl (x : F64) : Int := Dy.floor (F64.floor x).toDy
 
+/-- the in-tile offset `xf = x − tile_·xh`, clamped at 0 (`if (xf < 0) xf = 0;`) -/
+def offset (x : F64) (xh : Int) : F64 :=
+  let xf := x - F64.ofInt osgb_tile * F64.ofInt xh
+  if F64.lt xf 0 then 0 else xf
+
+/-- the carry added by the repair of finding F74: `if (xf >= tile_) { xf = 0; ++xh; }` — for `−2^−37 ≤ x < 0` the sum
+`x + tile_` rounds to `tile_`; the point is moved to the start of the next tile -/
+def carry (xf : F64) (xh : Int) : F64 × Int :=
+  if F64.ge xf (F64.ofInt osgb_tile) then (0, xh + 1) else (xf, xh)
+
+/-- what the floating part of `GridReference` computes for one coordinate at precision `p`:
+`h = ⌊x / tile⌋` (plus the carry), `i1 = ⌊xf / 10^max(5−p,0)⌋`, and for `p > 5` `i2 = ⌊(xf − ⌊xf⌋)·10^(p−5)⌋` -/
+structure Sc where
+  h : Int
+  i1 : Int
+  i2 : Int
+deriving Repr, DecidableEq
+
+def scaleCoord (x : F64) (p : Nat) : Sc :=
+  let xh0 := fl (x / F64.ofInt osgb_tile)
+  let c := carry (offset x xh0) xh0
+  let xf := c.1
+  let tl := osgb_tilelevel.toNat
+  let mult := pow10 (tl - p)
+  let i1 := fl (xf / mult)
+  let i2 := if p > tl then fl ((xf - F64.floor (xf / mult)) * pow10 (p - tl)) else 0
+  ⟨c.2, i1, i2⟩
+
+/-- the two tile letters of the 100 km square `(xh, yh)` (indices *before* the false-origin shift `tileoff·`):
+first letter = 500 km square, second = 100 km square inside it, rows counted from the north -/
+def tileLetters (xh yh : Int) : List Char :=
+  let xh := xh + osgb_tileoffx
+  let yh := yh + osgb_tileoffy
+  let g := osgb_tilegrid
+  [chr letters ((g - (yh / g) - 1) * g + (xh / g)).toNat, chr letters ((g - (yh % g) - 1) * g + (xh % g)).toNat]
+
+/-- integer-level encoder: letters, then `min p 5` digits of `i1` followed by `p − 5` digits of `i2`, for x then y
+(the two digit loops of the code write the low `min(p,5)` digits of `ix` and the low `p − 5` digits of the second `ix`) -/
+def encodeInt (sx sy : Sc) (p : Nat) : List Char :=
+  let tl := osgb_tilelevel.toNat
+  let n1 := min p tl
+  let b := osgb_base.toNat
+  tileLetters sx.h sy.h ++
+    digitsW digits b n1 sx.i1.toNat ++ digitsW digits b (p - tl) sx.i2.toNat ++
+    digitsW digits b n1 sy.i1.toNat ++ digitsW digits b (p - tl) sy.i2.toNat
+
 def gridReference (x y : F64) (prec : Int) : Except Err (List Char) := do
   checkCoords x y
   if !(prec ≥ 0 ∧ prec ≤ osgb_maxprec) then throw "prec"
   if x.isNaN || y.isNaN then return "INVALID".toList
-  let tile := F64.ofInt osgb_tile
-  let xh := fl (x / tile)
-  let yh := fl (y / tile)
-  let xf := x - tile * F64.ofInt xh
-  let yf := y - tile * F64.ofInt yh
-  let xf := if F64.lt xf 0 then 0 else xf
-  let yf := if F64.lt yf 0 then 0 else yf
-  let xh := xh + osgb_tileoffx
-  let yh := yh + osgb_tileoffy
-  let g := osgb_tilegrid
-  let l0 := chr letters ((g - (yh / g) - 1) * g + (xh / g)).toNat
-  let l1 := chr letters ((g - (yh % g) - 1) * g + (xh % g)).toNat
   let p := prec.toNat
-  let tl := osgb_tilelevel.toNat
-  let mult := pow10 (tl - p)
-  let ix := fl (xf / mult)
-  let iy := fl (yf / mult)
-  let n1 := min p tl
-  let dx1 := digitsW digits 10 n1 ix.toNat
-  let dy1 := digitsW digits 10 n1 iy.toNat
-  if p > tl then
-    let xf := xf - F64.floor (xf / mult)
-    let yf := yf - F64.floor (yf / mult)
-    let mult := pow10 (p - tl)
-    let ix := fl (xf * mult)
-    let iy := fl (yf * mult)
-    pure ([l0, l1] ++ dx1 ++ digitsW digits 10 (p - tl) ix.toNat ++ dy1 ++ digitsW digits 10 (p - tl) iy.toNat)
-  else
-    pure ([l0, l1] ++ dx1 ++ dy1)
+  pure (encodeInt (scaleCoord x p) (scaleCoord y p) p)
 
 def isSpace (c : Nat) : Bool := c = 32 || (9 ≤ c && c ≤ 13)
+
+/-- result of the integer part of `GridReference(string)`: tile indices (false origin removed), digit values, precision -/
+structure Dec where
+  xh : Int
+  yh : Int
+  xd : List Nat
+  yd : List Nat
+  prec : Nat
+deriving Repr, DecidableEq
+
+def readDigits (tbl : List Char) : List Nat → Option (List Nat)
+  | [] => some []
+  | c :: cs => match lookup tbl c, readDigits tbl cs with
+    | some d, some ds => some (d :: ds)
+    | _, _ => none
+
+/-- one iteration of the letter loop: `yh = yh·g + g − i/g − 1; xh = xh·g + i%g` on the state `(xh, yh)` -/
+def letterStep (st : Int × Int) (i : Nat) : Int × Int :=
+  let g := osgb_tilegrid
+  (st.1 * g + ((i : Int) % g), st.2 * g + g - ((i : Int) / g) - 1)
+
+/-- integer-level decoder (everything of `GridReference(string)` except the floating accumulation);
+the two iterations of `while (p < 2)` are written out -/
+def decodeInt (s : List Nat) : Except Err Dec :=
+  let grid := s.filter (fun c => !isSpace c)
+  if grid.length > 2 + 2 * osgb_maxprec.toNat then .error "too long" else
+  if grid.length < 2 then .error "too short" else
+  if grid.length % 2 ≠ 0 then .error "odd" else
+  match lookup letters (grid.getD 0 0), lookup letters (grid.getD 1 0) with
+  | some i, some j =>
+    let st := letterStep (letterStep (0, 0) i) j
+    let prec1 := (grid.length - 2) / 2
+    match readDigits digits ((grid.drop 2).take prec1), readDigits digits (grid.drop (2 + prec1)) with
+    | some xd, some yd => .ok ⟨st.1 - osgb_tileoffx, st.2 - osgb_tileoffy, xd, yd, prec1⟩
+    | _, _ => .error "non-digit"
+  | _, _ => .error "illegal prefix"
 
 inductive Rev where
   | nan
   | val (x y : F64) (prec : Int)
 
+/-- one step of the floating accumulation: `unit /= base_; x1 += unit * ix; y1 += unit * iy` -/
+def revStep (st : F64 × F64 × F64) (d : Nat × Nat) : F64 × F64 × F64 :=
+  let unit := st.2.2 / F64.ofInt osgb_base
+  (st.1 + unit * F64.ofInt d.1, st.2.1 + unit * F64.ofInt d.2, unit)
+
+def reverseVal (d : Dec) (centerp : Bool) : F64 × F64 :=
+  let unit : F64 := F64.ofInt osgb_tile
+  let st := (d.xd.zip d.yd).foldl revStep (unit * F64.ofInt d.xh, unit * F64.ofInt d.yh, unit)
+  if centerp then (st.1 + st.2.2 / 2, st.2.1 + st.2.2 / 2) else (st.1, st.2.1)
+
 def reverse (s : List Nat) (centerp : Bool) : Except Err Rev := do
   if s.length ≥ 2 && upper (s.getD 0 0) = 73 && upper (s.getD 1 0) = 78 then return .nan
-  let grid := s.filter (fun c => !isSpace c)
-  if grid.length > 2 + 2 * osgb_maxprec.toNat then throw "too long"
-  let len := grid.length
-  if len < 2 then throw "too short"
-  if len % 2 ≠ 0 then throw "odd"
-  let g := osgb_tilegrid
-  let mut xh : Int := 0
-  let mut yh : Int := 0
-  for c in grid.take 2 do
-    match lookup letters c with
-    | none => throw "illegal prefix"
-    | some i =>
-      yh := yh * g + g - ((i : Int) / g) - 1
-      xh := xh * g + ((i : Int) % g)
-  xh := xh - osgb_tileoffx
-  yh := yh - osgb_tileoffy
-  let prec1 := (len - 2) / 2
-  let mut unit : F64 := F64.ofInt osgb_tile
-  let mut x1 := unit * F64.ofInt xh
-  let mut y1 := unit * F64.ofInt yh
-  for i in List.range prec1 do
-    unit := unit / F64.ofInt osgb_base
-    match lookup digits (grid.getD (2 + i) 0), lookup digits (grid.getD (2 + i + prec1) 0) with
-    | some ix, some iy =>
-      x1 := x1 + unit * F64.ofInt ix
-      y1 := y1 + unit * F64.ofInt iy
-    | _, _ => throw "non-digit"
-  if centerp then
-    x1 := x1 + unit / 2
-    y1 := y1 + unit / 2
-  pure (.val x1 y1 prec1)
+  let d ← decodeInt s
+  let v := reverseVal d centerp
+  pure (.val v.1 v.2 d.prec)
+
+/-! ### the transverse Mercator wrapper `OSGB::Forward/Reverse` (the projection itself is property C06) -/
+
+/-- `computenorthoffset()`: `FalseNorthing() − y₀`, `y₀` the northing of the true origin under `OSGBTM()` -/
+def northOffset (falseNorthing y0 : F64) : F64 := falseNorthing - y0
+/-- `Forward`: `x += FalseEasting(); y += computenorthoffset()` on the projection's output -/
+def forwardWrap (falseEasting northoff tx ty : F64) : F64 × F64 := (tx + falseEasting, ty + northoff)
+/-- `Reverse`: `x −= FalseEasting(); y −= computenorthoffset()` before the inverse projection -/
+def reverseWrap (falseEasting northoff x y : F64) : F64 × F64 := (x - falseEasting, y - northoff)
 
 end OSGB
+
+/-! ## resolution / precision helper functions of the headers -/
+
+/-- `for (p = lo; p < hi; ++p) if (ok p) return p; return hi;` over a list of candidates -/
+def firstOr {α : Type} (ok : α → Bool) : List α → α → α
+  | [], d => d
+  | a :: as, d => if ok a then a else firstOr ok as d
+
+namespace Geohash
+
+/-- `Geohash::LatitudeResolution(len) = ldexp(180, −⌊5·len/2⌋)`, `len` clamped to `[0, 18]` (exact) -/
+def latRes (len : Int) : F64 := .fin false MathF.hd.toDy.m.toNat (-((5 * clampLen len / 2 : Nat) : Int))
+/-- `Geohash::LongitudeResolution(len) = ldexp(360, −(5·len − ⌊5·len/2⌋))` (exact) -/
+def lonRes (len : Int) : F64 := .fin false MathF.td.toDy.m.toNat (-((5 * clampLen len - 5 * clampLen len / 2 : Nat) : Int))
+
+def lens : List Int := (List.range maxlen).map Int.ofNat
+
+/-- `Geohash::GeohashLength(res)`: least `len < 18` with `LongitudeResolution(len) ≤ |res|`, else 18 -/
+def lengthFor (res : F64) : Int :=
+  firstOr (fun len => F64.le (lonRes len) (F64.abs res)) lens maxlen
+/-- `Geohash::GeohashLength(latres, lonres)` -/
+def lengthFor2 (latres lonres : F64) : Int :=
+  firstOr (fun len => F64.le (latRes len) (F64.abs latres) && F64.le (lonRes len) (F64.abs lonres)) lens maxlen
+
+/-- greatest `j ≥ j₀` (within `fuel` steps) with `den·10^j ≤ num`, given it holds at `j₀` -/
+def log10Up (num den : Nat) : Nat → Nat → Nat
+  | 0, j => j
+  | f + 1, j => if den * 10 ^ (j + 1) ≤ num then log10Up num den f (j + 1) else j
+/-- least `j ≥ j₀` (within `fuel` steps) with `den ≤ num·10^j` -/
+def log10Dn (num den : Nat) : Nat → Nat → Nat
+  | 0, j => j
+  | f + 1, j => if den ≤ num * 10 ^ j then j else log10Dn num den f (j + 1)
+/-- `⌊log₁₀(num/den)⌋` for positive integers, by search -/
+def floorLog10 (num den : Nat) : Int :=
+  if num ≥ den then (log10Up num den 400 0 : Nat) else -((log10Dn num den 400 1 : Nat) : Int)
+
+/-- `Geohash::DecimalPrecision(len) = −⌊log₁₀ LatitudeResolution(len)⌋` (exact integer arithmetic here; the code goes
+through `log`, which is harmless because no resolution is near a power of ten: theorem `geohash_decimal_precision_spec`) -/
+def decimalPrecision (len : Int) : Int := -(floorLog10 MathF.hd.toDy.m.toNat (2 ^ (5 * clampLen len / 2)))
+
+end Geohash
+
+namespace GARS
+/-- `GARS::Resolution(prec) = 1/real(2 | 4 | 12)` -/
+def resolution (prec : Int) : F64 :=
+  (1 : F64) / F64.ofInt (if prec ≤ 0 then gars_mult1 else if prec = 1 then gars_mult1 * gars_mult2 else gars_mult1 * gars_mult2 * gars_mult3)
+/-- `GARS::Precision(res)` -/
+def precision (res : F64) : Int :=
+  firstOr (fun p => F64.le (resolution p) (F64.abs res)) ((List.range gars_maxprec.toNat).map Int.ofNat) gars_maxprec
+end GARS
+
+namespace Georef
+/-- `Georef::Resolution(prec)`: 15, 1, or `1/(60·10^(prec−2))` with `prec` clamped to `[2, 11]` -/
+def resolution (prec : Int) : F64 :=
+  if prec < 1 then (if prec < 0 then F64.ofInt georef_tile else 1)
+  else
+    let p := max 2 (min georef_maxprec prec)
+    (1 : F64) / (F64.ofInt 60 * F64.ofInt (georef_base ^ (p - 2).toNat))
+/-- `Georef::Precision(res)`: the loop skips `prec = 1` and starts at 0 (never returns −1) -/
+def precision (res : F64) : Int :=
+  firstOr (fun p => F64.le (resolution p) (F64.abs res))
+    (((List.range georef_maxprec.toNat).map Int.ofNat).filter (· ≠ 1)) georef_maxprec
+end Georef
 
 end GeoVerif.Grid
